@@ -486,6 +486,32 @@ func laMaxLevels(c *Ctx, rule string) {
 			bad = append(bad, f.Name()+" is never set")
 		}
 	}
+	// the leaf's own repetition (what Schema() hands to the footer) is chosen by the LAST of the column's repetition codes
+	for _, b := range ctor.Blocks {
+		for _, ins := range b.Instrs {
+			st, ok := ins.(*ssa.Store)
+			if !ok {
+				continue
+			}
+			f := fieldOf(st.Addr)
+			if f == nil || f.Name() != "RepetitionType" || f.Pkg() == nil || f.Pkg().Path() != rtPath {
+				continue
+			}
+			sv := symExpr(st.Val, 0)
+			lastIdx := false
+			for _, prm := range ctor.Params {
+				if _, isSlice := prm.Type().Underlying().(*types.Slice); isSlice {
+					n := "param:" + prm.Name()
+					if strings.Contains(sv, "[load("+n+"[(builtin len("+n+") - 1)])]") {
+						lastIdx = true
+					}
+				}
+			}
+			if !lastIdx {
+				bad = append(bad, "the leaf's repetition setter is "+sv+", want the table entry for the last of the column's repetition codes (types[len(types)-1]): a leaf under a group of another repetition would be declared with the group's")
+			}
+		}
+	}
 	r.count(rule+"/constructors", 1)
 	if len(bad) > 0 {
 		r.bad(rule, key, u.Pos(ctor.Pos()), strings.Join(bad, "; "))
@@ -1045,10 +1071,10 @@ func laSizes(c *Ctx, rule string) {
 }
 
 // laFooterMeta (C02, C04, C01, C16): small provenance facts around the footer that the page-level rules lean on.
-//  - the row group's total_byte_size is accumulated over its column chunks (Footer);
-//  - the reader's per-row-group row count comes from the file's RowGroup.NumRows (Metadata.RowGroups), and
-//    Metadata.Rows() is the file's num_rows;
-//  - ReadMetaData positions the source at (tail position − footer length) before decoding the footer.
+//   - the row group's total_byte_size is accumulated over its column chunks (Footer);
+//   - the reader's per-row-group row count comes from the file's RowGroup.NumRows (Metadata.RowGroups), and
+//     Metadata.Rows() is the file's num_rows;
+//   - ReadMetaData positions the source at (tail position − footer length) before decoding the footer.
 func laFooterMeta(c *Ctx, rule string, which map[string]bool) {
 	r, u := c.R, c.U
 	if which["totals"] {
@@ -1161,7 +1187,8 @@ func laFooterMeta(c *Ctx, rule string, which map[string]bool) {
 						if !ok || s2.Addr != ssa.Value(cell) {
 							continue
 						}
-						ld, ok := stripConvert(s2.Val).(*ssa.UnOp)
+						// (the element may be built in a helper given the code)
+						ld, ok := throughParams(s2.Val).(*ssa.UnOp)
 						if !ok || ld.Op != token.MUL {
 							continue
 						}
@@ -1173,7 +1200,11 @@ func laFooterMeta(c *Ctx, rule string, which map[string]bool) {
 							continue
 						}
 						n++
-						key := u.FnName(f) + " group repetition"
+						key := u.FnName(ld.Parent()) + " group repetition"
+						loops := loops
+						if ld.Parent() != f {
+							loops = countedLoops(ld.Parent())
+						}
 						// the index must be the index of the loop over the path prefix whose element names the group
 						okIdx := false
 						for _, l := range loops {
